@@ -338,6 +338,29 @@ func (s *System) findMailbox(ref *Ref) vivid.Mailbox {
 			return v
 		}
 	}
-	// 若上述皆未命中，返回系统根 Actor 的 Mailbox 作为默认兜底方案，保证 Mailbox 一定可用。
-	return s.Mailbox()
+	// 根 Actor 自身不在 actorContexts 中登记，其路径直接对应根邮箱。
+	if ref.GetPath() == s.Ref().GetPath() {
+		return s.Mailbox()
+	}
+	// 本地不存在该路径（从未存在或已终止）：消息不可投递，作为死信处理。
+	// 不可回落到根 Actor 的邮箱：根 Actor 会悄悄忽略普通消息，而 OnKill 等系统消息则会作用到根 Actor 自身。
+	return &deadLetterMailbox{system: s}
 }
+
+// deadLetterMailbox 是本地不存在的 Actor 路径所对应的邮箱：入列的消息一律作为死信投递给根 Actor。
+type deadLetterMailbox struct {
+	system *System
+}
+
+func (m *deadLetterMailbox) Enqueue(envelop vivid.Envelop) {
+	m.system.TellSelf(ves.DeathLetterEvent{
+		Envelope: envelop,
+		Time:     time.Now(),
+	})
+}
+
+func (m *deadLetterMailbox) Pause() {}
+
+func (m *deadLetterMailbox) Resume() {}
+
+func (m *deadLetterMailbox) IsPaused() bool { return false }
